@@ -36,6 +36,10 @@ def task(W, payload):
     if payload["index"] % 3 == 1:
         # adjustment chains across stratifications (a Multiply of one stratification followed by an Overwrite of a later one and vice versa)
         prog = Gen(r, Opts(max_strats=3, max_flows=4, n_requests=2, force_strat=True, chain_adjust_bias=0.8, allow_mixing=False)).program()
+    elif payload["index"] % 3 == 2:
+        # population splits given proportion by proportion as parameters, some of them summing to one only within the API's tolerance
+        prog = Gen(r, Opts(max_strats=2, max_flows=4, n_requests=2, force_strat=True, split_bias=0.95, inexact_split_bias=0.5, param_split_all_bias=0.7,
+                           allow_param_split=False, allow_mixing=False)).program()
     else:
         prog = Gen(r, Opts(max_strats=2, max_flows=5, n_requests=4, mixing_pair_bias=0.25)).program()
     out = mk_out(prog)
@@ -71,6 +75,31 @@ def task(W, payload):
         elif not same({"outputs": r2["outputs"], "derived": dict((k, v) for k, v in r2["derived"])}, refd):
             fail(out, "building with literals gives different results from running with the same parameter values", "c09", payload, program=ops, params=params)
         if nontrivial: out["cases"].append(h + ":literal")
+    # (e) a parameter that reaches the SAVED outputs only through a cumulative / aggregate output of a function output that is itself pruned by the
+    # derived-output whitelist: it is still an input parameter, and supplying it has the effect of the literal value
+    names_ = [op["name"] for op in ops if op["op"] == "request"]
+    if names_ and payload["index"] % 2 == 0:
+        src = r.choice(names_)
+        extra = [{"op": "request", "kind": "func", "name": "wl_f", "sources": [src], "expr": {"*": [{"x": 0}, {"p": "wl_p"}]}, "save": True},
+                 {"op": "request", "kind": r.choice(["cum", "agg"]), "name": "wl_c", "source": "wl_f", "sources": ["wl_f"], "save": True},
+                 {"op": "request", "kind": "func", "name": "wl_r", "sources": ["wl_c"], "expr": {"+": [{"x": 0}, {"c": "1/2"}]}, "save": True},
+                 {"op": "whitelist", "names": ["wl_c", "wl_r"]}]
+        params_e = dict(params, wl_p=q(r.choice([Fr(1, 2), Fr(3, 4), Fr(3, 2)])))
+        S5 = fresh_session(W)
+        if S5.build(ops + extra):
+            bump(out, "whitelist_reaches_parameter_through_" + extra[1]["kind"])
+            ip5 = S5.I.apply({"op": "input_params"}); lp5 = S5.L.send({"op": "input_params"})
+            out["evals"] += 1
+            if ip5["ok"] and lp5["ok"] and sorted(ip5["params"]) != sorted(lp5["params"]):
+                out["diffs"].append({"stage": "S9", "what": "get_input_parameters (with a derived-output whitelist)", "prescribed": True, "impl": sorted(ip5["params"]),
+                                     "model": sorted(lp5["params"]), "task": {"module": "c09", "fn": "task", "payload": payload}, "program": ops + extra})
+            before = len(S5.log)
+            py5, ln5 = S5.run(params_e, "euler", tol=1e-9, stages=("S8",))
+            out["evals"] += 1
+            if nontrivial: out["cases"].append(h + ":whitelist")
+            for d in S5.log[before:]:
+                d = dict(d); d["prescribed"] = True; d["task"] = {"module": "c09", "fn": "task", "payload": payload}; d["program"] = ops + extra
+                out["diffs"].append(d)
     # (b) partitions
     keys = inputs
     if len(keys) <= 4:
